@@ -364,4 +364,78 @@ Section Deep.
   Proof.
     intros H. apply (H [[97%N]]). vm_compute. apply elem_of_list_In. right. left. reflexivity.
   Qed.
+  (** ** C03 on the overlay: the union the overlay shows stays a TREE under these calls - every shown entry of
+      the caller's namespace has a parent that is shown as a directory *)
+  Definition view_tree (s0 s1 : mstate) : Prop :=
+    forall q n, user_path (q ++ [n]) -> is_Some (view s0 s1 (q ++ [n])) -> view s0 s1 q = Some NDir.
+
+  Lemma user_path_parent (q : path) n : user_path (q ++ [n]) -> user_path q.
+  Proof.
+    intros [Hh Hn]. split.
+    - destruct q; [discriminate|exact Hh].
+    - apply Forall_app in Hn as [Hn _]. exact Hn.
+  Qed.
+
+  Lemma parent_shown (s0 s1 : mstate) (p : path) :
+    wf s0 -> p <> [] -> reachable s0 s1 p -> view s0 s1 (removelast p) = Some NDir.
+  Proof.
+    intros Hwf Hp [_ Hvis]. destruct (decide (removelast p = [])) as [E|E].
+    - rewrite E. destruct Hwf as [(r & Hr & Hrt) _]. unfold view. rewrite Hr. f_equal. now apply absf_dir.
+    - eapply Forall_forall in Hvis; [exact Hvis|]. now apply self_prefix.
+  Qed.
+
+  Lemma tree_after_insert (s0 s1 s0' : mstate) (p : path) (x : node) :
+    wf s0 -> p <> [] -> reachable s0 s1 p -> view s0 s1 p = None -> view_tree s0 s1 ->
+    (forall q, user_path q -> view s0' s1 q = if decide (q = p) then Some x else view s0 s1 q) ->
+    view_tree s0' s1.
+  Proof.
+    intros Hwf Hp Hreach Hnone Htree Hview q n Hu Hsome.
+    pose proof (user_path_parent q n Hu) as Huq.
+    rewrite (Hview (q ++ [n]) Hu) in Hsome. rewrite (Hview q Huq).
+    destruct (decide (q ++ [n] = p)) as [E|E].
+    - assert (q = removelast p) as -> by (rewrite <- E; symmetry; apply removelast_last).
+      destruct (decide (removelast p = p)) as [E'|_]; [exfalso; apply (f_equal length) in E'; rewrite <- E in E'; rewrite removelast_last, app_length in E'; cbn in E'; lia|].
+      apply parent_shown; auto.
+    - pose proof (Htree q n Hu Hsome) as Hq. destruct (decide (q = p)) as [->|_]; [congruence|exact Hq].
+  Qed.
+
+  Theorem create_dir_keeps_tree (s0 s1 : mstate) hs (p : path) :
+    wf s0 -> p <> [] -> reachable s0 s1 p -> view s0 s1 p = None ->
+    (forall g, s0 !! marker p = Some g -> f_type g = File) -> view_tree s0 s1 ->
+    exists s0', run bhandler (ovl_impl top lower (CCreateDir p)) (S2 s0 s1 hs) = (S2 s0' s1 hs, Ok tt) /\ wf s0' /\ view_tree s0' s1.
+  Proof.
+    intros Hwf Hp Hreach Hnone Hmk Htree.
+    destruct (create_dir_deep s0 s1 hs p Hwf Hp Hreach Hnone Hmk) as (s0' & Hrun & Hwf' & Hview).
+    exists s0'. split; [exact Hrun|]. split; [exact Hwf'|].
+    exact (tree_after_insert s0 s1 s0' p NDir Hwf Hp Hreach Hnone Htree Hview).
+  Qed.
+
+  Theorem create_file_keeps_tree (s0 s1 : mstate) hs (p : path) :
+    wf s0 -> p <> [] -> reachable s0 s1 p -> view s0 s1 p = None ->
+    (forall g, s0 !! marker p = Some g -> f_type g = File) -> view_tree s0 s1 ->
+    exists s0', run bhandler (ovl_impl top lower (CCreateFile p)) (S2 s0 s1 hs) =
+                  (S2 s0' s1 (hs ++ [HMemWriter 0 p [] 0]), Ok (length hs)) /\ wf s0' /\ view_tree s0' s1.
+  Proof.
+    intros Hwf Hp Hreach Hnone Hmk Htree.
+    destruct (create_file_deep s0 s1 hs p Hwf Hp Hreach Hnone Hmk) as (s0' & Hrun & Hwf' & Hview).
+    exists s0'. split; [exact Hrun|]. split; [exact Hwf'|].
+    exact (tree_after_insert s0 s1 s0' p (NFile []) Hwf Hp Hreach Hnone Htree Hview).
+  Qed.
+
+  Theorem remove_file_keeps_tree (s0 s1 : mstate) hs (p : path) (b : list N) :
+    wf s0 -> p <> [] -> user_path p -> no_collision p ->
+    (is_Some (s0 !! p) -> s0 !! marker p = None) ->
+    view s0 s1 p = Some (NFile b) ->
+    Forall (not_file s0) (prefixes (removelast (marker p))) -> view_tree s0 s1 ->
+    exists s0', run bhandler (ovl_impl top lower (CRemoveFile p)) (S2 s0 s1 hs) = (S2 s0' s1 (hs ++ [HClosed]), Ok tt) /\
+                wf s0' /\ view_tree s0' s1.
+  Proof.
+    intros Hwf Hp Hup Hnc Hinv Hv Hfree Htree.
+    destruct (remove_file_deep s0 s1 hs p b Hwf Hp Hup Hnc Hinv Hv Hfree) as (s0' & Hrun & Hwf' & Hview).
+    exists s0'. split; [exact Hrun|]. split; [exact Hwf'|].
+    intros q n Hu Hsome. pose proof (user_path_parent q n Hu) as Huq.
+    rewrite (Hview (q ++ [n]) Hu) in Hsome. rewrite (Hview q Huq).
+    destruct (decide (q ++ [n] = p)) as [E|E]; [destruct Hsome; discriminate|].
+    pose proof (Htree q n Hu Hsome) as Hq. destruct (decide (q = p)) as [->|_]; [congruence|exact Hq].
+  Qed.
 End Deep.
